@@ -43,6 +43,7 @@ def check(col: Collector, tier: str):
     check_subscript(col, repo, m)
     col.floor("C04.R6", 3)
     check_container_elements(col, "C04.R6", m)
+    _imports(col)
     # R7 a job that throws (First() on an empty sequence, at() past the end) must fail the run: the job step of every
     # runner stands in a plain errexit context, so its non-zero status ends the script before anything is delivered
     from sa.core.common import REPO
@@ -59,6 +60,15 @@ def check(col: Collector, tier: str):
                 f"the analysis job step ({tool}) must run in a plain `set -e` context (found context "
                 f"{[c.ctx for c in jobs]}): `job && echo done`, `job | tee log` or `job || true` turn a fault thrown by the generated code "
                 "into a successful run that delivers the partial output", f"{rel}:{jobs[0].node.line if jobs else 0}")
+
+
+def _imports(col):
+    from sa.props._tr import import_obligations
+    import_obligations(col, "C04.R8", "c09", lambda o: o.detail == "refusal:chained comparison",
+                       "a chained comparison must stay refused (or be lowered like `and`): evaluating all its operands up front runs a First() or an "
+                       "index that an earlier false link should have protected")
+    import_obligations(col, "C04.R8", "c05", lambda o: o.rule == "C05.R6",
+                       "an event that throws must end the job, not be skipped silently")
 
 
 def _need(m, name):
